@@ -4,6 +4,7 @@ package main
 import (
 	"bytes"
 	"fmt"
+	"io"
 	"math/rand"
 	"os"
 	"sort"
@@ -164,9 +165,23 @@ func runStream(c *sup.Child, b sup.Batch) {
 				return
 			}
 			chunks := chunkings(rng, data)
-			for _, ch := range chunks {
+			mixed := rng.Intn(3) == 0 // chunks reach the writer through Write, io.Copy and io.WriteString in turn
+			for ci, ch := range chunks {
 				buf := append([]byte{}, ch...)
-				k, err := w.Write(buf)
+				var k int
+				var err error
+				switch {
+				case mixed && (ci+len(ch))%3 == 1:
+					var k64 int64
+					k64, err = io.Copy(w, struct{ io.Reader }{bytes.NewReader(buf)}) // a writer with ReadFrom is fed through it
+					k = int(k64)
+					r.AddObs("chunks_written_through_io_copy", 1)
+				case mixed && (ci+len(ch))%3 == 2:
+					k, err = io.WriteString(w, string(buf))
+					r.AddObs("chunks_written_through_write_string", 1)
+				default:
+					k, err = w.Write(buf)
+				}
 				for i := range buf {
 					buf[i] ^= 0xFF // the caller may reuse its buffer
 				}
@@ -298,15 +313,36 @@ func (t *srcTree) populate(fs filesystem.Filespace, prefix string) error {
 	return nil
 }
 
-// preseed puts longer files at some of the same paths in the destination.
+// preseed puts stale files (longer, of the same length, shorter) at half of the same paths in the destination.
 func (t *srcTree) preseed(rng *rand.Rand, fs filesystem.Filespace, prefix string) {
 	for f, d := range t.files {
-		if hashStr(f)%3 == 0 {
-			if i := strings.LastIndex(prefix+f, "/"); i >= 0 {
-				fs.MkdirAll((prefix + f)[:i], 0777)
+		var stale []byte
+		switch hashStr(f) % 6 {
+		case 0: // longer: the source's bytes plus a tail
+			stale = append(append([]byte{}, d...), []byte("-STALE-TAIL-FROM-OLDER-LONGER-FILE")...)
+		case 1: // the same length, other bytes (written after the source, so not older than it)
+			if len(d) == 0 {
+				continue
 			}
-			fs.WriteFile(prefix+f, append(append([]byte{}, d...), []byte("-STALE-TAIL-FROM-OLDER-LONGER-FILE")...), 0644)
+			stale = make([]byte, len(d))
+			for i := range d {
+				stale[i] = d[i] ^ 0x5A
+			}
+		case 2: // shorter: a proper prefix of other bytes
+			if len(d) < 2 {
+				continue
+			}
+			stale = make([]byte, len(d)/2)
+			for i := range stale {
+				stale[i] = d[i] ^ 0x33
+			}
+		default:
+			continue
 		}
+		if i := strings.LastIndex(prefix+f, "/"); i >= 0 {
+			fs.MkdirAll((prefix + f)[:i], 0777)
+		}
+		fs.WriteFile(prefix+f, stale, 0644)
 	}
 }
 
